@@ -171,7 +171,7 @@ func verifLemmaMaxBodyTight(c *channelInstance, m *Message, chunkSize int, chunk
 //@   props C11
 //@   frame_only
 //@   requires c != nil && c.sc != nil && c.sc.cfg != nil && c.algo != nil && m != nil && m.MessageHeader != nil
-//@   assigns allbut channelInstance SecureChannel Config Message MessageHeader SequenceHeader
+//@   assigns allbut channelInstance SecureChannel Config Message MessageHeader SequenceHeader uacp.Conn uacp.Acknowledge
 //@   loop 0 invariant c != nil && c.algo != nil && m != nil && m.MessageHeader != nil
 
 //@ func (*channelInstance).newMessage
@@ -198,11 +198,13 @@ func verifLemmaMaxBodyTight(c *channelInstance, m *Message, chunkSize int, chunk
 //@   ensures [C11:error-no-number] err != nil ==> c.sequenceNumber == old(c.sequenceNumber)
 //@   uses seqAfter0, seqAfterS
 
+// C06 (send side): a message of more chunks than the peer accepts must be refused, not written. The code
+// has no such test (the TODO above the loop says so): [C06:chunk-count-limit] is a known finding.
 // Writing the chunks of one message: the caller holds the instance lock and has just numbered the
 // message; the lock is never released in between (no other message's chunk can be interleaved on this
 // instance) and chunk k carries the k-th number after the first.
 //@ func (*SecureChannel).writeMessageChunks
-//@   props C11
+//@   props C11 C06
 //@   frame_only
 //@   use (*channelInstance).signAndEncrypt@frame
 //@   uses seqAfter0, seqAfterS
@@ -218,6 +220,7 @@ func verifLemmaMaxBodyTight(c *channelInstance, m *Message, chunkSize int, chunk
 //@   loop 0 invariant s != nil && s.c != nil && seqInv(instance) && instance.algo != nil && m != nil && m.MessageHeader != nil
 //@   loop 0 invariant [C11:lock-kept] held(&instance.Mutex) && released(&instance.Mutex) == rel0
 //@   loop 0 invariant [C11:consecutive] instance.sequenceNumber == seqAfter(s0, ite(rangeindex < 0, 0, rangeindex))
+//@   loop 0 invariant [C06:chunk-count-limit] s.c.ack != nil && (s.c.ack.MaxChunkCount == 0 || len(chunks) <= int(s.c.ack.MaxChunkCount))
 
 // The client sender: one lock hold spans numbering the message and writing all its chunks.
 //@ func (*SecureChannel).sendAsyncWithTimeout
